@@ -75,17 +75,20 @@ def run(prop_id, tier, seed, replay=None):
     log(f'[{prop_id}] driven {len(flat)} records {time.time() - t0:.1f}s')
 
     # canaries: corrupted copies that the validator must reject
-    canaries = []
     crng = random.Random(seed * 7919 + 13)
-    cand = list(flat)
-    crng.shuffle(cand)
     want = getattr(mod, 'CANARIES', 6)
-    for r in cand:
-        if len(canaries) >= want:
-            break
-        c = mod.canary(json.loads(json.dumps(r)), crng)
-        if c is not None:
-            canaries.append(c)
+    if hasattr(mod, 'make_canaries'):
+        canaries = mod.make_canaries(records, crng, want)     # list of record lists, corrupted records carry 'canary'
+    else:
+        canaries = []
+        cand = list(flat)
+        crng.shuffle(cand)
+        for r in cand:
+            if len(canaries) >= want:
+                break
+            c = mod.canary(json.loads(json.dumps(r)), crng)
+            if c is not None:
+                canaries.append(c)
     if not canaries and not replay:
         raise MachineryError('no canary could be built')
 
